@@ -2612,11 +2612,12 @@ class quantized_tanh(base_quantizer.BaseQuantizer):  # pylint: disable=invalid-n
   def __str__(self):
     flags = [str(self.bits)]
     if self.use_stochastic_rounding:
-      flags.append(str(int(self.use_stochastic_rounding)))
+      flags.append(
+          "use_stochastic_rounding=" + str(int(self.use_stochastic_rounding)))
     if self.symmetric:
-      flags.append(str(int(self.symmetric)))
+      flags.append("symmetric=" + str(int(self.symmetric)))
     if self.use_real_tanh:
-      flags.append(str(int(self.use_real_tanh)))
+      flags.append("use_real_tanh=" + str(int(self.use_real_tanh)))
     return "quantized_tanh(" + ",".join(flags) + ")"
 
   def __call__(self, x):
@@ -2679,11 +2680,12 @@ class quantized_sigmoid(base_quantizer.BaseQuantizer):  # pylint: disable=invali
   def __str__(self):
     flags = [str(self.bits)]
     if self.symmetric:
-      flags.append(str(int(self.symmetric)))
+      flags.append("symmetric=" + str(int(self.symmetric)))
     if self.use_real_sigmoid:
-      flags.append(str(int(self.use_real_sigmoid)))
+      flags.append("use_real_sigmoid=" + str(int(self.use_real_sigmoid)))
     if self.use_stochastic_rounding:
-      flags.append(str(int(self.use_stochastic_rounding)))
+      flags.append(
+          "use_stochastic_rounding=" + str(int(self.use_stochastic_rounding)))
     return "quantized_sigmoid(" + ",".join(flags) + ")"
 
   def __call__(self, x):
